@@ -152,13 +152,13 @@ def h5_configs(tier):
         ]
     return [
         ("sigma4", sig, 4, [[]], range(5)),
-        ("core7", S("<>/= a'"), 7, [[]], range(5)),
+        ("core6", S("<>/= a'"), 6, [[]], range(5)),
         ("comment", S("-!>\x00a"), 8, [S("<!--")], [0]),
         ("cdata", S("]>a["), 9, [S("<![CDATA[")], [0]),
         ("pct", S("%>a`-"), 8, [S("<%")], [0]),
         ("bogus", S(">a-`["), 6, [S("<!"), S("<?"), S("</ "), S("<!DOCTYPE"), S("<!doctype")], [0]),
-        ("attrq", S("'\"`a> /="), 6, [S("<a b="), S("<a b='"), S('<a b="'), S("<a b=`"), S("<a b ")], [0]),
-        ("valctx", S("'\"`a> /=<"), 6, [[]], [1, 2, 3, 4]),
+        ("attrq", S("'\"`a> /="), 5, [S("<a b="), S("<a b='"), S('<a b="'), S("<a b=`"), S("<a b ")], [0]),
+        ("valctx", S("'\"`a> /=<"), 5, [[]], [1, 2, 3, 4]),
     ]
 
 
@@ -326,6 +326,16 @@ def c07(tier, sc):
 # ---------------------------------------------------------------------------
 # XssProps runs (C02 C11 C13 C15 C17)
 
+def tlc_sound(res, what):
+    """With -continue TLC goes on after invariant violations; anything else it calls an error
+    (evaluation errors, parse errors) is a tool failure."""
+    bad = [l for l in res.out.splitlines() if l.startswith("Error:") and not (
+        l.startswith("Error: Invariant") or l.startswith("Error: The behavior up to this point") or
+        l.startswith("Error: The following behavior"))]
+    if bad or "states generated" not in res.out:
+        raise ToolFailure("TLC failed on %s: %s\n%s" % (what, bad[:3], res.out[-3000:]))
+
+
 def xss_props(sc, d, rep, name, mode, alphabet, maxlen, prefixes=([],), templates=(), timeout=3000):
     res = vlib.tlc_mc(sc, d, "XssProps", "XP_" + name, {
         "Alphabet": tla_set(alphabet), "MaxLen": maxlen,
@@ -333,8 +343,7 @@ def xss_props(sc, d, rep, name, mode, alphabet, maxlen, prefixes=([],), template
         "Templates": "{" + ", ".join(tla_seq(t) for t in templates) + "}",
         "Mode": '"%s"' % mode, "DoExport": "TRUE"},
         invariants=["Prop", "Export"], extra=["-continue"], timeout=timeout)
-    if "states generated" not in res.out:
-        raise ToolFailure("TLC failed on XssProps/%s:\n%s" % (name, res.out[-3000:]))
+    tlc_sound(res, "XssProps/" + name)
     rep.add_tlc("XssProps/" + name, res)
     got = res.printed()
     nviol = len(re.findall(r"Invariant Prop is violated", res.out))
@@ -742,8 +751,7 @@ def xss_gen(sc, d, rep, name, mode, alphabet=(97,), maxlen=0, templates=(), time
         "Templates": "{" + ", ".join(tla_seq(t) for t in templates) + "}",
         "Mode": '"%s"' % mode, "DoExport": "TRUE"},
         invariants=["Prop", "Export"], extra=["-continue"], timeout=timeout)
-    if "states generated" not in res.out:
-        raise ToolFailure("TLC failed on XssGen/%s:\n%s" % (name, res.out[-3000:]))
+    tlc_sound(res, "XssGen/" + name)
     rep.add_tlc("XssGen/" + name, res)
     got = res.printed()
     nviol = len(re.findall(r"Invariant Prop is violated", res.out))
@@ -929,16 +937,19 @@ def sqli_configs(tier):
             ("check.tokq", "check", SQL_TOKEN_UNITS[:16], 3, ["1'", "1\" "], [9]),
         ]
     return [
-        ("lex.sigma", "lex", sig_lex, 4, [""], ALLFLAGS),
-        ("lex.str", "lex", byte_units("'\"\\a "), 8, ["", "'", "e'", "@\"", "u&'"], [9, 10, 20]),
-        ("lex.num", "lex", byte_units("01.e+xb'f u"), 6, [""], [9]),
-        ("lex.q", "lex", byte_units("q'[]x( \xe9"), 7, ["", "n"], [9]),
+        ("lex.sigma3", "lex", sig_lex, 3, [""], ALLFLAGS),
+        ("lex.sigma4", "lex", sig_lex, 4, [""], [9, 17]),
+        ("lex.str", "lex", byte_units("'\"\\a "), 7, ["", "'", "e'", "@\"", "u&'"], [9, 10, 20]),
+        ("lex.num", "lex", byte_units("01.e+xb'f u"), 5, [""], [9]),
+        ("lex.q", "lex", byte_units("q'[]x( \xe9"), 6, ["", "n"], [9]),
         ("lex.dollar", "lex", byte_units("$aA1.,"), 7, ["$"], [9]),
-        ("lex.comment", "lex", byte_units("/*!-\n #"), 7, [""], [9, 17]),
+        ("lex.comment", "lex", byte_units("/*!-\n #"), 6, [""], [9, 17]),
         ("pass.core", "pass", core, 5, [""], ALLFLAGS),
-        ("pass.tok", "pass", SQL_TOKEN_UNITS, 4, [""], [9, 17]),
-        ("check.core", "check", core, 6, [""], [9]),
-        ("check.tok", "check", SQL_TOKEN_UNITS, 4, ["", "1'", "1\" "], [9]),
+        ("pass.tok", "pass", SQL_TOKEN_UNITS, 4, [""], [9]),
+        ("pass.tok3", "pass", SQL_TOKEN_UNITS, 3, [""], [17, 10, 18, 12, 20]),
+        ("check.core", "check", core, 5, [""], [9]),
+        ("check.tok", "check", SQL_TOKEN_UNITS, 4, [""], [9]),
+        ("check.tokq", "check", SQL_TOKEN_UNITS[:16], 4, ["1'", "1\" "], [9]),
     ]
 
 
@@ -1106,8 +1117,7 @@ def sqli_props(sc, d, rep, name, mode, un, maxlen, openers=("",), templates=(), 
         "Templates": "{" + ", ".join(tla_seq(t) for t in templates) + "}",
         "Mode": '"%s"' % mode, "DoExport": "TRUE"},
         invariants=["Prop", "Export"], extra=["-continue"], timeout=timeout)
-    if "states generated" not in res.out:
-        raise ToolFailure("TLC failed on SqliProps/%s:\n%s" % (name, res.out[-3000:]))
+    tlc_sound(res, "SqliProps/" + name)
     rep.add_tlc("SqliProps/" + name, res)
     got = res.printed()
     nviol = len(re.findall(r"Invariant Prop is violated", res.out))
@@ -1366,6 +1376,8 @@ def c10(tier, sc):
     un = ["b", "e", "n", "q", "u", "x", "d", "f", "o", "r", "i", "N", "X", "'", "1", " ", "\\", "$", "0", "&", "or ", "union ", "select ", "in ", "(",
           "like ", "not ", "user", "if", ";", "=", "."]
     cases = sqli_props(sc, d, rep, "case", "case", un, 3, templates=tmpl)
+    # every key of the current keyword table in six frames (look-ups and the rules that compare token values)
+    cases += sqli_props(sc, d, rep, "casekw", "casekw", [], 0)
     flat = []
     for c in cases:
         flat.append(c["in"])
